@@ -16,27 +16,27 @@ theorem size_le_capacity (s : Stack) (h : s.Inv) :
   ⟨h.1, h.2.1, h.2.2.1, C20Array.capacity_bytes_no_wrap s.v h⟩
 
 /-- in every state reached by any interleaving from a state satisfying the invariant -/
-theorem history_size_le_capacity (ops : List SOp) (s : Stack) (m : Mem) (hinv : s.Inv) (hlive : 0 < m.live) :
+theorem history_size_le_capacity (ops : List SOp) (s : Stack) (m : Mem) (hinv : s.Inv) :
     (s.run ops m).2.1.size ≤ (s.run ops m).2.1.v.capacity ∧
     (s.run ops m).2.1.v.capacity ≤ (s.run ops m).2.1.v.buf.length :=
-  ⟨(C09Stack.history_refines ops s m hinv hlive).2.2.1.1, (C09Stack.history_refines ops s m hinv hlive).2.2.1.2.1⟩
+  ⟨(C09Stack.history_refines ops s m hinv).2.2.1.1, (C09Stack.history_refines ops s m hinv).2.2.1.2.1⟩
 
 /-- **growth is strict**: a push never shrinks the capacity and changes it only on an exactly full
 stack, to a strictly larger value -/
-theorem growth_strict (s : Stack) (x : Nat) (m : Mem) (hinv : s.Inv) (hlive : 0 < m.live) :
+theorem growth_strict (s : Stack) (x : Nat) (m : Mem) (hinv : s.Inv) :
     s.v.capacity ≤ (s.push x m).2.1.v.capacity ∧
     ((s.push x m).2.1.v.capacity ≠ s.v.capacity → s.v.size = s.v.capacity ∧ s.v.capacity < (s.push x m).2.1.v.capacity) :=
-  C20Array.add_capacity s.v x m hinv hlive
+  C20Array.add_capacity s.v x m hinv
 
 /-- pops never change the capacity (the stack has no trim) -/
 theorem pop_keeps_capacity (s : Stack) (m : Mem) (hinv : s.Inv) : (s.pop m).2.2.1.v.capacity = s.v.capacity :=
   (Arr.removeLast_spec s.v m hinv).2.2.2.1.1
 
 /-- pushing a list of elements one by one -/
-theorem pushes_realloc_log (s : Stack) (xs : List Nat) (m : Mem) (hinv : s.Inv) (hlive : 0 < m.live)
+theorem pushes_realloc_log (s : Stack) (xs : List Nat) (m : Mem) (hinv : s.Inv)
     (hd : ∀ c, 2 * c ≤ s.v.grow c) :
     (s.v.addAll xs m).2.nalloc - m.nalloc ≤ Nat.log2 (s.size + xs.length) + 1 :=
-  C20Array.appends_realloc_log s.v xs m hinv hlive hd
+  C20Array.appends_realloc_log s.v xs m hinv hd
 
 /-- `addAll` on the wrapped array is what repeated `cc_stack_push` does -/
 theorem pushes_are_addAll (s : Stack) (xs : List Nat) (m : Mem) :
